@@ -291,6 +291,22 @@ def _dedupe_outer(d):
     return d
 
 
+def confirm_fresh(class_ctx, ci, ai, bi):
+    """a pair that fails in this worker is re-judged in a fresh interpreter (nothing parsed before): only a failure that the pair
+    causes by itself counts; one that needs the worker's earlier parses is a history effect (C15's subject) and is only counted"""
+    import subprocess
+    import sys
+    from ..common import ROOT
+
+    code = ("import sys\nsys.path.insert(0, %r)\nfrom vf.props import c12\n"
+            "ctxs, pool = (c12.CLASS_CTX, c12.CLASS_POOL) if %r else (c12.CTX, c12.POOL)\n"
+            "bad = c12.pair_judge(ctxs[%d], pool[%d], pool[%d], class_ctx=%r)\nsys.exit(1 if bad else 0)\n") % (ROOT, class_ctx, ci, ai, bi, class_ctx)
+    r = subprocess.run([sys.executable, "-c", code], capture_output=True, timeout=600)
+    if r.returncode not in (0, 1):
+        raise HarnessError(f"fresh re-judgement failed: {r.stderr[-300:]!r}")
+    return r.returncode == 1
+
+
 def h_pairs(c0: int, c1: int, c2: int) -> bool:
     """
     post: _
@@ -302,7 +318,9 @@ def h_pairs(c0: int, c1: int, c2: int) -> bool:
         B = POOL[ch.pick(len(POOL))]
         if TWIN:
             return False
-        return pair_judge(ctx, A, B) is None
+        if pair_judge(ctx, A, B) is None:
+            return True
+        return not confirm_fresh(False, CTX.index(ctx), POOL.index(A), POOL.index(B))
 
 
 def h_cpairs(c0: int, c1: int, c2: int) -> bool:
@@ -316,7 +334,9 @@ def h_cpairs(c0: int, c1: int, c2: int) -> bool:
         B = CLASS_POOL[ch.pick(len(CLASS_POOL))]
         if TWIN:
             return False
-        return pair_judge(ctx, A, B, class_ctx=True) is None
+        if pair_judge(ctx, A, B, class_ctx=True) is None:
+            return True
+        return not confirm_fresh(True, CLASS_CTX.index(ctx), CLASS_POOL.index(A), CLASS_POOL.index(B))
 
 
 # ---------------------------------------------------------------------------------------------
